@@ -1101,6 +1101,13 @@ def b_isinstance(ex, v, cls):
                 return ex.decide(tm.var(f"is_python_{name}({v.args[0]})", tm.B))
             return same
         return False
+    if name in ("numpy.generic", "numpy.number"):
+        # a numpy SCALAR (not an array): for a raw scalar argument the complement of "is a python number" (same boolean)
+        if isinstance(v, T):
+            if v.op == "var" and ex.trail is not None and v.sort in (tm.R, tm.I):
+                return not ex.decide(tm.var(f"is_python_{'float' if v.sort == tm.R else 'int'}({v.args[0]})", tm.B))
+            raise OutOfSubset("isinstance(<derived scalar>, numpy.generic)")
+        return False
     if name in ("list", "tuple"):
         return isinstance(v, list if name == "list" else tuple)
     if isinstance(cls, ClassV):
@@ -1121,6 +1128,11 @@ def b_hasattr(ex, o, name):
         return name in ("copy", "update", "items", "keys", "values", "get", "pop")
     if isinstance(o, ArrV):
         return name in ("copy", "shape", "sum", "dtype")
+    if isinstance(o, sx.OpaqueFn) and ex.trail is not None and name not in ("__call__",):
+        # a callable handed in by the caller (a recovery curve, a correlation): "any callable" includes objects that carry data
+        # attributes (a scipy interpolator has .x / .y) and plain functions that do not: both answers are explored; reading
+        # the attribute itself is outside the subset
+        return ex.decide(tm.var(f"hasattr({o.name},{name})", tm.B))
     raise OutOfSubset(f"hasattr on {type(o).__name__}")
 
 
@@ -2156,6 +2168,17 @@ _reg("numpy.argsort", np_argsort)
 _reg("scipy.interpolate.interp1d", lambda ex, x, y, **kw: Interp1dV(ex, x, y, **kw))
 _reg("scipy.interpolate.interpolate.interp1d", lambda ex, x, y, **kw: Interp1dV(ex, x, y, **kw))
 _reg("scipy.integrate.cumulative_trapezoid", cumulative_trapezoid)
+
+
+def math_isclose(ex, a, b, rel_tol=1e-09, abs_tol=0.0):
+    """math.isclose(a, b): |a - b| <= max(rel_tol * max(|a|, |b|), abs_tol)"""
+    a, b, rt, at = (tm.toreal(tm.lift(num(v))) for v in (a, b, rel_tol, abs_tol))
+    if isinstance(a, ArrV) or isinstance(b, ArrV):
+        raise OutOfSubset("math.isclose of arrays")
+    return tm.le(tm.absv(tm.sub(a, b)), tm.maximum(tm.mul(rt, tm.maximum(tm.absv(a), tm.absv(b))), at))
+
+
+_reg("math.isclose", math_isclose)
 _reg("scipy.sparse.diags", sparse_diags)
 _reg("scipy.sparse.linalg.spsolve", spsolve)
 _reg("scipy.sparse.linalg.bicgstab", bicgstab)
@@ -2361,6 +2384,9 @@ class MinimizerResultV:
     def getattr_model(self, ex, name):
         if name == "params":
             return self.params
+        if name in ("aborted", "success") and ex.trail is not None:
+            # whether the optimiser ran out of its budget is not determined by anything the contract knows: both outcomes are explored
+            return ex.decide(tm.var(f"minimizer_{name}", tm.B))
         raise OutOfSubset("MinimizerResult." + name)
 
 
